@@ -35,6 +35,14 @@ Accept(e) ==
             /\ \A i \in 1..Len(e.scaled) : NearTol(e.scaled[i], RQ(R))
             /\ (e.n = 2 => NearTol(e.norm2, RQ(R)))
             /\ (e.n = 3 => NearTol(e.norm3, RQ(R)))
+            \* the unstrided twins: bit-identical to the strided forms at stride one (flagged by the harness) and right by themselves
+            /\ "twins" \notin DOMAIN e
+            /\ ("u" \in DOMAIN e =>
+                  /\ IsDy(e.u.sum) /\ IsDy(e.u.sum1) /\ IsDy(e.u.sum2) /\ IsDy(e.u.dot)
+                  /\ REq(RDy(e.u.sum), RQ(SumI(v, 1))) /\ REq(RDy(e.u.sum1), RQ(SumI(Map(v, Abs1), 1)))
+                  /\ REq(RDy(e.u.sum2), RQ(S)) /\ REq(RDy(e.u.dot), RQ(SumI([i \in 1..e.n |-> v[i] * w[i]], 1)))
+                  /\ (e.n > 0 => NearTol(e.u.mean, RNorm(SumI(v, 1), e.n)))
+                  /\ NearTol(e.u.norm, RQ(R)))
     [] e.f = "move" ->
          LET n == e.n  a == e.a  b == e.b IN      \* a, b: integer arrays before; results after each helper
          /\ Ints(e.copy) /\ Vals(e.copy) = a
